@@ -1,6 +1,7 @@
 package harness
 
 import (
+	"strings"
 	"context"
 	"fmt"
 	"time"
@@ -28,6 +29,7 @@ type followUp struct {
 type c04Obs struct {
 	locks   int
 	follows []followUp
+	script  string // the builder script of the scenario proper (the follow-up phase switches to "o")
 }
 
 var c04Last *c04Obs
@@ -35,7 +37,7 @@ var c04Last *c04Obs
 // c04Post runs at quiescence, still under the scheduler (thread 0): lock accounting, then the black-box
 // confirmation that every key can be built again and that the last completed build is what is observed.
 func c04Post(h *fh) {
-	obs := &c04Obs{locks: h.front.KeyLocks()}
+	obs := &c04Obs{locks: h.front.KeyLocks(), script: h.cfg.Script}
 	c04Last = obs
 
 	// First, with no time passing: where every build succeeded and nothing was rejected, a Get now observes the
@@ -140,6 +142,17 @@ func c04Check(h *fh, r *vsched.Result) []Violation {
 		}
 	}
 
+	// A Get that has completed has a result: a value or an error (a builder panic leaves its waiters with neither,
+	// by design of the original; that script is exempt).
+	if !strings.Contains(obs.script, "p") {
+		for _, e := range h.log {
+			if e.Kind == "get-end" && e.Name != "follow-up" && e.Name != "quiescent" && e.Err == nil && e.Nil {
+				vs = append(vs, Violation{Signature: fmt.Sprintf("C04 %s completed-without-result %s", front, mode),
+					Detail: fmt.Sprintf("a Get of key %d returned neither a value nor an error although the Gets and builds it depended on had finished", e.Key)})
+			}
+		}
+	}
+
 	// Builder context of background builds must not be cancelled (observed inside the builder).
 	for _, e := range h.log {
 		if (e.Kind == "build-start" || e.Kind == "build-end") && e.Ctx.Err != nil {
@@ -159,6 +172,7 @@ func c04Cells(tier string) []Cell {
 		{{{Key: 0, Cancel: true}}, {{Key: 0}}},
 		{{{Key: 0, Reuse: true}, {Key: 1, Reuse: true}}, {{Key: 0}}},
 		{{{Key: 0}}, {{Key: 0}}},
+		{{{Key: 0}}, {{Key: 0, Skip: true}}}, // a forced refresh joins (or is joined by) a plain Get
 	}
 
 	for front := 0; front < 3; front++ {
